@@ -34,8 +34,17 @@ def wake_race(ctx):
     res = lib.run_go(ctx, "multiplex", "TestVerifC03WakeRace", timeout=900)
     lib.collect_go(ctx, res)
     ctx.log("wake-up race: %d trials, %d violations" % (res["stats"].get("trials", 0), len(res.get("violations", []))))
-    return {"evaluations": res["stats"].get("trials", 0), "distinct_nontrivial": res["distinct_nontrivial"], "samples": res["samples"][:1],
-            "traces": 0, "wake_race_trials": res["stats"].get("trials", 0)}
+    out = {"evaluations": res["stats"].get("trials", 0), "distinct_nontrivial": res["distinct_nontrivial"], "samples": res["samples"][:1],
+           "traces": 0, "wake_race_trials": res["stats"].get("trials", 0)}
+    if not ctx.quick():
+        # the receive pipe under the stream (spec/StreamPipe.tla, extra X01): every short schedule of Read / Write / the
+        # closing frame's Close with parked readers, replayed on the real pipes; its end-of-stream and wake-up verdicts are
+        # C03's (keys mapped by x01.C03_KEYMAP), the rest (deadlines, back-pressure) is reported under X01 only
+        from props import x01
+        pc = x01.stage(ctx)
+        out["pipe_replay"] = {k: pc.get(k) for k in ("evaluations", "distinct_nontrivial", "traces_validated_against_impl")}
+        out["evaluations"] += pc.get("evaluations", 0)
+    return out
 
 
 replay = muxprop.replay_file
